@@ -129,7 +129,7 @@ def build(keys, vals, nkeys, form, variant=None):
         t = Table([Vector(list(c), name=nm) for nm, c in cols])
     else:
         from . import provenance
-        _, t = provenance.table_variant(cols, variant)
+        _, t = provenance.table_variant(cols, variant, flagged=True)
     if form == "name":
         over = [nm for nm, _ in kcols]
     elif form == "column":
